@@ -132,7 +132,7 @@ def describe(v, model, depth=0):
         return {"t": "set", "v": [describe(x, model, depth + 1) for x in v.items]}
     if isinstance(v, Obj) and "__native__" in v.fields:
         return v.fields["__native__"](model, describe)
-    return {"t": "opaque", "v": type(v).__name__}
+    return {"t": "opaque", "v": type(v).__name__}  # Obj without a native recipe (e.g. uninitialised self) / Opaque values
 
 
 def _sym_get(v, i, model):
@@ -203,7 +203,7 @@ def run_task(task):
                         e2 = Exec(w, p2)
                         env = sc.make(e2)
                         d["args"] = {k: describe(val, v.model) for k, val in env.items() if not k.startswith("ghost_")}
-                        d["args"] = {k: a for k, a in d["args"].items() if a.get("t") != "opaque"}
+                        d["args"] = {k: a for k, a in d["args"].items() if not (a.get("t") == "opaque" and a.get("v") == "Obj")}
                         d["model"] = {k: s for k, s in prove._model_dict(v.model).items() if "!" not in k}
                     except Exception as e:  # noqa
                         d["args"] = None
@@ -241,11 +241,11 @@ def sample_inputs(w, ct, sc, results, extra):
             e2 = Exec(w, p2)
             env = sc.make(e2)
             args = {k: describe(val, model) for k, val in env.items() if not k.startswith("ghost_")}
-            args = {k: v for k, v in args.items() if v.get("t") != "opaque"}  # e.g. the uninitialised `self` of a constructor
+            args = {k: v for k, v in args.items() if not (v.get("t") == "opaque" and v.get("v") == "Obj")}  # the uninitialised `self` of a constructor
         except Exception:  # noqa
             return
         key = json.dumps(args, sort_keys=True, default=str)
-        if key not in seen and '"opaque"' not in key:
+        if key not in seen:
             seen.add(key)
             out.append({"args": args, "origin": origin})
 
@@ -333,7 +333,7 @@ def native_batch(jobs, timeout=600):
 def build_job(ct, args, only_clause=None):
     nat = ct.native or {}
     job = {"imports": nat.get("imports", []), "setup": nat.get("setup", ""), "call": nat.get("call"), "args": args,
-           "observe": nat.get("observe", {}), "clauses": [], "raises": ct.raises if nat.get("check_raises", True) else None}
+           "observe": nat.get("observe", {}), "clauses": [], "raises": [[e, c] for e, c in ct.raises if c is not None] if nat.get("check_raises", True) else None}
     for cid, expr, props in ct.ensures:
         job["clauses"].append({"id": f"ensures[{cid}]", "text": nat.get("clause_text", {}).get(cid, expr), "when": "return"})
     if ct.returns is not None and nat.get("returns_native", True):
@@ -497,7 +497,7 @@ def check_property(prop, tier, seed):
         "trusted_base": trusted,
         "functions": list(functions.values()), "by_backend": by_backend, "solver_time_s": round(solver_time, 3),
         "slowest": [{"secs": s, "obligation": n, "scenario": sc} for s, n, sc in slowest[:5]],
-        "samples": samples or [{"note": "no discharged ensures/raises obligation to show"}],
+        "samples": (samples + [{"bounded_case": x} for x in (bounded.get("samples") or [])[:3]]) or [{"note": "no discharged ensures/raises obligation to show"}],
         "undecided": undecided[:20], "bounded": bounded.get("parts", []),
         "explanation": EXPLAIN.get(prop, ""),
         "evaluations": bounded.get("evaluations", 0), "distinct_nontrivial": bounded.get("distinct", 0),
